@@ -991,7 +991,8 @@ func runMemProgram(cmpID int, steps []memStep, render bool) (fail string, kcase 
 			out := ""
 			switch {
 			case pan != "":
-				return []string{fmt.Sprintf("SToMem %s %d [] KTPanic", coqSegs(st.Data), st.Seq)}, "", true
+				return []string{fmt.Sprintf("SToMem %s %d [] KTPanic", coqSegs(st.Data), st.Seq)},
+					fmt.Sprintf("%s: decodeBatchToMem panics on a %d-byte record (header %x): %s", where, len(st.Data), clip(st.Data), pan), true
 			case derr != nil:
 				c, a, ok := errCode(derr)
 				if !ok {
@@ -1003,6 +1004,15 @@ func runMemProgram(cmpID int, steps []memStep, render bool) (fail string, kcase 
 			}
 			d := mdb.VerifDump()
 			kt = []string{fmt.Sprintf("SToMem %s %d %s %s", coqSegs(st.Data), st.Seq, coqNums(heightsSince(d)), out), coqDump(d)}
+			if len(st.Data) >= 12 {
+				const keyMaxSeq = uint64(1)<<56 - 1
+				hs, hc := binary.LittleEndian.Uint64(st.Data), uint64(binary.LittleEndian.Uint32(st.Data[8:]))
+				if hs >= st.Seq && (hs > keyMaxSeq || hc > keyMaxSeq-hs) {
+					if c, _, _ := errCode(derr); derr == nil || c != 5 {
+						return kt, fmt.Sprintf("%s: a record whose header (first seq %d, count %d) leaves the range of a key's sequence number is not rejected as 'invalid sequence number': err %v, db.seq would become %d", where, hs, hc, derr, hs+hc), false
+					}
+				}
+			}
 			if st.Intact {
 				var all []bRec
 				for _, g := range st.Groups {
@@ -1171,8 +1181,20 @@ func genMemProgram(r *vlib.RNG) (cmpID int, steps []memStep) {
 				}
 			case 3: // garbage tail
 				rec = append(rec, r.Bytes(r.Range(1, 5), []byte{0, 1, 2, 0xff})...)
-			case 4: // sequence number beyond keyMaxSeq: makeInternalKey panics
-				binary.LittleEndian.PutUint64(rec, (uint64(1)<<56)-uint64(r.Intn(2)))
+			case 4: // header sequence numbers that leave the key range: 'invalid sequence number' since the fix
+				// (before it: makeInternalKey panicked, or an empty batch pushed db.seq beyond keyMaxSeq)
+				switch r.Intn(4) {
+				case 0:
+					binary.LittleEndian.PutUint64(rec, (uint64(1)<<56)-uint64(r.Intn(2)))
+				case 1:
+					binary.LittleEndian.PutUint64(rec, ^uint64(0))
+				case 2: // empty batch, seq = 2^64-1
+					rec = rec[:12]
+					binary.LittleEndian.PutUint64(rec, ^uint64(0))
+					binary.LittleEndian.PutUint32(rec[8:], 0)
+				default: // first seq in range, last one not
+					binary.LittleEndian.PutUint64(rec, (uint64(1)<<56)-uint64(count(gs)))
+				}
 			}
 			steps = append(steps, memStep{Op: "tomem", Groups: gs, Data: rec, Seq: seq})
 			// whatever was inserted before the damage was noticed stays: later steps use fresh numbers
